@@ -31,6 +31,7 @@ type c19Gen struct {
 	marks []int
 	depth int
 	budget int
+	inCase int // >0 inside a switch clause: yaegi does not resolve labels declared there
 }
 
 func (g *c19Gen) raw(s string) {
@@ -50,10 +51,15 @@ func (g *c19Gen) stmt(indent int, s string) int {
 func (g *c19Gen) block(indent int, n int, inFunc bool) {
 	for i := 0; i < n && g.budget > 0; i++ {
 		g.budget--
-		k := g.tape.Choose(14)
-		if g.depth >= 2 && (k == 1 || k == 2 || k == 3) {
+		k := g.tape.Choose(27)
+		if g.depth >= 2 && (k == 1 || k == 2 || k == 3 || (k >= 14 && k <= 22)) {
 			k = 0
 		}
+		if g.inCase > 0 && (k == 15 || k == 18) {
+			k = 0
+		}
+		in := strings.Repeat("\t", indent)
+		id := g.line + 1
 		switch k {
 		case 0, 9:
 			g.stmt(indent, fmt.Sprintf("x = x*3 + %d", 1+g.tape.Choose(7)))
@@ -75,12 +81,14 @@ func (g *c19Gen) block(indent int, n int, inFunc bool) {
 			g.stmt(indent, "switch x % 3 {")
 			g.raw(strings.Repeat("\t", indent) + "case 0:")
 			g.depth++
+			g.inCase++
 			g.block(indent+1, 1, inFunc)
 			g.raw(strings.Repeat("\t", indent) + "case 1:")
 			g.block(indent+1, 1, inFunc)
 			g.raw(strings.Repeat("\t", indent) + "default:")
 			g.block(indent+1, 1, inFunc)
 			g.depth--
+			g.inCase--
 			g.raw(strings.Repeat("\t", indent) + "}")
 		case 4:
 			if len(g.funcs) > 0 {
@@ -103,9 +111,129 @@ func (g *c19Gen) block(indent int, n int, inFunc bool) {
 			g.stmt(indent, "x = rec(x%4) + x")
 		case 12:
 			g.stmt(indent, "x = spawn(x)")
+		case 14:
+			// range over a slice, a string, an integer or a one-entry map
+			switch g.tape.Choose(4) {
+			case 0:
+				g.stmt(indent, "for i, e := range []int{x % 3, 2, x % 5} {")
+				g.stmt(indent+1, "x += e + i")
+			case 1:
+				g.stmt(indent, "for _, c := range \"ab\" {")
+				g.stmt(indent+1, "x += int(c) % 5")
+			case 2:
+				g.stmt(indent, "for i := range 3 {")
+				g.stmt(indent+1, "x += i")
+			case 3:
+				g.stmt(indent, "for k, v := range map[int]int{2: x % 9} {")
+				g.stmt(indent+1, "x += k + v")
+			}
+			g.depth++
+			g.block(indent+1, g.tape.Choose(2), inFunc)
+			g.depth--
+			g.raw(in + "}")
+		case 15:
+			// labeled loops: continue and break of the outer loop from the inner one
+			lab := fmt.Sprintf("L%d", id)
+			g.stmt(indent, "x++")
+			g.raw(in + lab + ":")
+			g.raw(in + "for i := 0; i < 3; i++ {")
+			g.stmt(indent+1, "for j := 0; j < 2; j++ {")
+			g.stmt(indent+2, "if (x+i+j)%3 == 0 {")
+			g.stmt(indent+3, "continue "+lab)
+			g.raw(in + "\t\t}")
+			g.stmt(indent+2, "if x%5 == 0 {")
+			g.stmt(indent+3, "break "+lab)
+			g.raw(in + "\t\t}")
+			g.stmt(indent+2, "x += j + 1")
+			g.raw(in + "\t}")
+			g.raw(in + "}")
+		case 16:
+			// expression-less switch with init statement and fallthrough
+			g.stmt(indent, fmt.Sprintf("switch y := x %% %d; {", 3+g.tape.Choose(2)))
+			g.raw(in + "case y == 0:")
+			g.stmt(indent+1, "x += 1")
+			g.raw(in + "\tfallthrough")
+			g.raw(in + "case y == 1:")
+			g.depth++
+			g.inCase++
+			g.block(indent+1, 1, inFunc)
+			g.inCase--
+			g.depth--
+			g.raw(in + "default:")
+			g.stmt(indent+1, "x += 3")
+			g.raw(in + "}")
+		case 17:
+			// type switch with a bound variable
+			v := fmt.Sprintf("v%d", id)
+			g.stmt(indent, "var "+v+" interface{} = x")
+			g.stmt(indent, "if x%2 == 0 {")
+			g.stmt(indent+1, v+" = \"str\"")
+			g.raw(in + "}")
+			g.stmt(indent, "switch t := "+v+".(type) {")
+			g.raw(in + "case int:")
+			g.stmt(indent+1, "x += t % 11")
+			g.raw(in + "case string:")
+			g.stmt(indent+1, "x += len(t)")
+			g.raw(in + "default:")
+			g.stmt(indent+1, "x = 0")
+			g.raw(in + "}")
+		case 18:
+			// backward goto
+			n, lab := fmt.Sprintf("n%d", id), fmt.Sprintf("G%d", id)
+			g.stmt(indent, n+" := 0")
+			g.raw(in + lab + ":")
+			g.stmt(indent, n+"++")
+			g.stmt(indent, "x += "+n)
+			g.stmt(indent, "if "+n+" < 2+x%2 {")
+			g.stmt(indent+1, "goto "+lab)
+			g.raw(in + "}")
+		case 19:
+			// if with init statement and short-circuit operators calling a function
+			g.stmt(indent, "if y := x % 4; y > 1 && pos(y) || pos(x%7-3) {")
+			g.depth++
+			g.block(indent+1, 1, inFunc)
+			g.depth--
+			g.raw(in + "} else if !pos(x % 3) {")
+			g.stmt(indent+1, "x += 5")
+			g.raw(in + "}")
+		case 20:
+			// loop with continue and break
+			g.stmt(indent, "for i := 0; i < 4; i++ {")
+			g.stmt(indent+1, "if (x+i)%3 == 0 {")
+			g.stmt(indent+2, "continue")
+			g.raw(in + "\t}")
+			g.stmt(indent+1, "if i == 2 {")
+			g.stmt(indent+2, "break")
+			g.raw(in + "\t}")
+			g.stmt(indent+1, "x += i")
+			g.raw(in + "}")
+		case 21:
+			// closure stored in a variable, capturing and updating x
+			c := fmt.Sprintf("inc%d", id)
+			g.stmt(indent, c+" := func(d int) int {")
+			g.stmt(indent+1, "x += d")
+			g.stmt(indent+1, "return x")
+			g.raw(in + "}")
+			g.stmt(indent, c+"(1)")
+			g.stmt(indent, "x = "+c+"(2) + "+c+"(3)")
+		case 22:
+			// defers in a loop, one of them a closure over the loop variable
+			g.stmt(indent, "for i := 0; i < 2; i++ {")
+			g.stmt(indent+1, "defer func() {")
+			g.stmt(indent+2, "fmt.Println(\"dl\", i)")
+			g.raw(in + "\t}()")
+			g.stmt(indent+1, "defer fmt.Println(\"dv\", i, x)")
+			g.raw(in + "}")
+		case 23:
+			g.stmt(indent, fmt.Sprintf("x = acc.add(acc{%d}, x)", 1+g.tape.Choose(5)))
+		case 24:
+			g.stmt(indent, fmt.Sprintf("m%d := acc{%d}.add; x = m%d(x) + m%d(1)", id, 1+g.tape.Choose(5), id, id))
+		case 25:
+			g.stmt(indent, "x, _ = two(x)")
+		case 26:
+			g.stmt(indent, fmt.Sprintf("p%d := &acc{x %% 7}; p%d.bump(); x += p%d.k", id, id, id))
 		case 13:
 			// select used sequentially: buffered channel, default clause
-			in := strings.Repeat("\t", indent)
 			sc := fmt.Sprintf("sc%d", g.line+1)
 			g.stmt(indent, sc+" := make(chan int, 1)")
 			g.stmt(indent, "if x%2 == 0 {")
@@ -149,6 +277,19 @@ func GenC19(tape *Tape) *C19Prog {
 	g.raw("func (a acc) add(x int) int {")
 	g.fline["add"] = g.stmt(1, "y := x + a.k")
 	g.stmt(1, "return y")
+	g.raw("}")
+	g.raw("")
+	g.raw("func (a *acc) bump() {")
+	g.fline["bump"] = g.stmt(1, "a.k++")
+	g.raw("}")
+	g.raw("")
+	g.raw("func pos(v int) bool {")
+	g.fline["pos"] = g.stmt(1, "return v > 0")
+	g.raw("}")
+	g.raw("")
+	g.raw("func two(x int) (a, b int) {")
+	g.fline["two"] = g.stmt(1, "a, b = x+1, x+2")
+	g.stmt(1, "return")
 	g.raw("}")
 	g.raw("")
 	g.raw("func safe(x int) (r int) {")
@@ -215,7 +356,7 @@ func GenC19(tape *Tape) *C19Prog {
 	}
 	g.stmt(1, "fmt.Println(\"end\", x)")
 	g.raw("}")
-	funcs := append([]string{"add", "safe", "rec", "spawn"}, g.funcs...)
+	funcs := append([]string{"add", "safe", "rec", "spawn", "pos", "two", "bump"}, g.funcs...)
 	return &C19Prog{Src: g.b.String(), Marks: g.marks, FLine: g.fline, Funcs: funcs}
 }
 
